@@ -165,6 +165,8 @@ def main(tier, seed, replay=None):
             texts.append(concretise(s, seed=rng.randrange(1000), pools='rich',
                                     gaps=layout_variant(s, rng)))
         rep.notes['programs'] = len(prog)
+        # the texts the repository's own tests lex (DESIGN 4.5)
+        texts += gen.suite_corpus(rep)
     rep.mark('generated')
     res = impl.pmap(_lex, texts, chunk=2000)
     rep.mark('lexed')
